@@ -169,6 +169,9 @@ var c06ExtraSources = []string{
 	"re-match(a, b)", "re-match('n1-ab', ../pat)", "re-match(concat(a, 'x'), concat('^', b, '.*$'))",
 	"re-match(/a/b[k = current()/../x]/c, '[a-z0-9-]+')", "re-match('abc', 'a.c') and re-match(a, a)",
 	"count(a)", "sum(a)", "count(/x/y) + sum(../z)", "local-name(a)", "string-length(a) + count(../b)",
+	// a leaf-list (the trees hand out the slice they store) compared as numbers by one machine and read as
+	// strings by others
+	"a > 2", "2 != a", "a < b", "a = 'x'", "concat(a, '')", "a = b", "string-length(a)", "a >= 1 and a = 'x'",
 }
 
 func c06Compile(s string) string {
